@@ -105,26 +105,26 @@ Definition hinv (data : list Z) : Prop := zlen data mod 8 = 0 /\ zlen data <= 42
 (* [step] handles slot i: reads the i-th source pointer, canonicalises it (appending its bytes)
    and stores the resulting pointer in slot i of the block at byte address B *)
 Lemma slots_loop (step : world -> Z -> cout world) (m : segs) (B : Z) (vals : list value)
-      (ev : value -> Z -> Z -> cres (Z * list Z)) :
+      (okF : nat -> Prop) (evs : nat -> value -> Z -> Z -> cres (Z * list Z)) :
   0 <= B -> B mod 8 = 0 ->
   (forall i data cap rl w', 0 <= i < zlen vals -> hinv data -> B + 8 * zlen vals <= zlen data ->
      step (dstw data cap m rl) i = KOk w' ->
      exists word body cap' rl',
        w' = dstw (put_word data (B + 8 * i) word ++ bytes_of_words body) cap' m rl' /\
        hinv (data ++ bytes_of_words body) /\
-       ev (nth (Z.to_nat i) vals VNull) (B / 8 + i) (zlen data / 8) = COk (word, body)) ->
+       forall F, okF F -> evs F (nth (Z.to_nat i) vals VNull) (B / 8 + i) (zlen data / 8) = COk (word, body)) ->
   forall n, (n <= length vals)%nat -> forall data cap rl w',
     hinv data -> B + 8 * zlen vals <= zlen data ->
     kfold (iota n) (dstw data cap m rl) step = KOk w' ->
     exists words kids cap' rl',
       length words = n /\ w' = dstw (set_slots data B words ++ bytes_of_words kids) cap' m rl' /\
       hinv (data ++ bytes_of_words kids) /\
-      enc_cells ev (map CP (firstn n vals)) (B / 8) (zlen data / 8) = COk (words, kids).
+      forall F, okF F -> enc_cells (evs F) (map CP (firstn n vals)) (B / 8) (zlen data / 8) = COk (words, kids).
 Proof.
   intros HB HBm Hstep. induction n as [|n IH]; intros Hn data cap rl w' Hi Hb H.
   - cbn in H. inversion H; subst. exists [], [], cap, rl. split; [reflexivity|].
     rewrite set_slots_nil by (unfold zlen in *; lia). cbn [bytes_of_words flat_map]. rewrite !app_nil_r.
-    split; [reflexivity|]. split; [exact Hi| reflexivity].
+    split; [reflexivity|]. split; [exact Hi| intros F _; reflexivity].
   - rewrite iota_S, kfold_app in H.
     destruct (kfold (iota n) (dstw data cap m rl) step) as [wk| | |] eqn:Ek; try discriminate. cbn [kbind] in H.
     destruct (IH ltac:(lia) data cap rl wk Hi Hb Ek) as (words & kids & cap1 & rl1 & Lw & -> & Hi1 & Ec).
@@ -143,8 +143,9 @@ Proof.
       rewrite bow_app, <- !app_assoc. reflexivity.
     + split.
       * unfold hinv in *. rewrite bow_app. rewrite !zlen_app in *. rewrite Lsl in Hi2. lia.
-      * rewrite (firstn_snoc VNull n vals) by lia. rewrite map_app. cbn [map].
-        apply (enc_cells_snoc ev _ word body _ _ _ words kids Ec).
+      * intros F HF. specialize (Ec F HF). specialize (Ev F HF).
+        rewrite (firstn_snoc VNull n vals) by lia. rewrite map_app. cbn [map].
+        apply (enc_cells_snoc (evs F) _ word body _ _ _ words kids Ec).
         rewrite zlen_map. rewrite Nat2Z.id in Ev.
         replace (B / 8 + zlen (firstn n vals)) with (B / 8 + Z.of_nat n) by (unfold zlen; rewrite firstn_length; lia).
         replace (zlen data / 8 + zlen kids) with (zlen (set_slots data B words ++ bytes_of_words kids) / 8).
